@@ -220,7 +220,7 @@ def run(ctx, out, budget):
             plan.append(shape(rng, kind, sz))
     ops_list = [p[0] for p in plan]
     deadline = 15.0 if q else 60.0
-    impl = sessions.run_impl_sessions(ops_list, op_timeout=deadline)
+    impl = sessions.run_impl_sessions(ops_list, op_timeout=deadline, retry_timeouts=False)
     model = sessions.run_model_sessions(ctx.driver, ops_list)
     for si, (ops, idxs, i3, kind, size, nn) in enumerate(plan):
         io = impl[si]
@@ -296,7 +296,7 @@ def replay(ctx, payload):
     fl = payload.get("failure") or {}
     sc = fl.get("scenario") or {}
     if sc.get("k") == "session":
-        io = sessions.run_impl_sessions([sc["ops"]], op_timeout=60.0)[0]
+        io = sessions.run_impl_sessions([sc["ops"]], op_timeout=60.0, retry_timeouts=False)[0]
         model = sessions.run_model_sessions(ctx.driver, [sc["ops"]])
         for i, got in enumerate(io):
             if got.get("err") in ("Timeout", "RecursionError"):
@@ -308,7 +308,7 @@ def replay(ctx, payload):
     if sc.get("k") == "shape":
         import random
         ops = shape(random.Random(0), sc["kind"], sc["size"])[0]
-        io = sessions.run_impl_sessions([ops], op_timeout=60.0)[0]
+        io = sessions.run_impl_sessions([ops], op_timeout=60.0, retry_timeouts=False)[0]
         if any(g.get("err") in ("Timeout", "RecursionError") for g in io):
             return True
         idx = [i for i, o in enumerate(ops) if o["op"] == "cas.find_all_fs"][0]
